@@ -546,6 +546,57 @@ Disable(S, keys, unknown) ==
     ELSE [s |-> [S EXCEPT !.act = @ \ keys, !.reg = @ \ keys], ok |-> TRUE, err |-> "ok", emit |-> <<>>]
 
 (***************************************************************************)
+(* Construction: Tracks.__init__, SolutionTracks.__init__ and              *)
+(* SolutionTracks.from_tracks, given a graph whose node attributes are the *)
+(* ones of S (a copy of a reachable graph with some keys removed)          *)
+(***************************************************************************)
+MaxOf(X) == IF X = {} THEN 0 ELSE CHOOSE m \in X : \A y \in X : y <= m
+\* remove the attributes `ks` from EVERY node of the graph copy
+Strip(S, ks) ==
+    [S EXCEPT !.tid  = IF "tid"  \in ks THEN [n \in Node |-> None]  ELSE @,
+              !.lid  = IF "lid"  \in ks THEN [n \in Node |-> None]  ELSE @,
+              !.pos  = IF "pos"  \in ks THEN [n \in Node |-> NoPos] ELSE @,
+              !.area = IF "area" \in ks THEN [n \in Node |-> -1]    ELSE @]
+\* a new object: empty history, nothing active yet, the static registry;
+\* TrackAnnotator.__init__ reads lookups and id sources from the attributes (_get_max_id_and_map)
+StaticReg == {"time"} \cup (IF HasSeg THEN {} ELSE {"pos"})
+Fresh(S) ==
+    [S EXCEPT !.U = <<>>, !.R = <<>>, !.act = {}, !.reg = StaticReg,
+              !.t2n = {<<S.tid[n], n>> : n \in {m \in Present(S) : S.tid[m] # None}},
+              !.l2n = {<<S.lid[n], n>> : n \in {m \in Present(S) : S.lid[m] # None}},
+              !.maxT = MaxOf({S.tid[n] : n \in Present(S)} \cup {0}),
+              !.maxL = MaxOf({S.lid[n] : n \in Present(S)} \cup {0})]
+\* _check_existing_feature samples ONE node (TRUE for an empty graph); attributes are removed
+\* from every node or from none, so "on the sampled node" = "on every node"
+KeyExists(S, k) ==
+    Present(S) = {} \/ \A n \in Present(S) :
+        CASE k = "tid" -> S.tid[n] # None [] k = "lid" -> S.lid[n] # None
+          [] k = "pos" -> S.pos[n] # NoPos [] k = "area" -> S.area[n] # -1
+\* _setup_core_computed_features: an existing key is activated without computing, a missing one is enabled
+RECURSIVE SetupCore(_, _)
+SetupCore(S, ks) ==
+    IF ks = <<>> THEN S
+    ELSE LET k  == Head(ks)
+             S1 == IF KeyExists(S, k) THEN [S EXCEPT !.act = @ \cup {k}, !.reg = @ \cup {k}]
+                   ELSE Enable(S, {k}, FALSE, TRUE).s
+         IN SetupCore(S1, Tail(ks))
+RegionCore == IF HasSeg THEN <<"pos", "area">> ELSE <<>>
+\* SolutionTracks(graph, segmentation, scale)
+CtorDirect(S) == SetupCore(Fresh(S), RegionCore \o <<"tid", "lid">>)
+\* Tracks(graph, ...) followed by SolutionTracks.from_tracks: the plain Tracks sets up the region
+\* features; the solution is built with its FeatureDict (activation only) and recomputes BOTH ids when
+\* some node lacks one of them.  Pinned tree: ids that are complete stay unmanaged (finding F24).
+CtorFromTracks(S) ==
+    LET S1    == SetupCore(Fresh(S), RegionCore)
+        force == \E n \in Present(S1) : S1.tid[n] = None \/ S1.lid[n] = None
+    IN IF force THEN Enable(S1, {"tid", "lid"}, FALSE, TRUE).s
+       ELSE IF Fix("F24") THEN Enable(S1, {"tid", "lid"}, FALSE, FALSE).s
+       ELSE S1
+\* SolutionTracks(graph, features = the FeatureDict of the old object): every listed feature an
+\* annotator manages is activated, nothing is computed
+CtorFeatures(S) == [Fresh(S) EXCEPT !.act = S.reg \cap Available, !.reg = S.reg]
+
+(***************************************************************************)
 (* History: ActionHistory.undo / redo, Tracks.undo / redo                  *)
 (***************************************************************************)
 Undo(S) ==
